@@ -98,7 +98,7 @@ def pops_key(repo, fq, key):
     return False
 
 
-def exempt(entry_q, o, repo=None):
+def exempt(entry_q, o, repo=None, keep_flags=None):
     dim, cat, owner, origin, tag = o
     of = origin[0].split(':')[1]
     if cat == 'IS8' and of in IS8_FREE:
@@ -118,6 +118,8 @@ def exempt(entry_q, o, repo=None):
             key, _, reason = reason[4:].partition('|')
             if repo is None or not pops_key(repo, origin[0], key):
                 continue  # the exemption holds only while the explicit pop is there
+            if keep_flags is not None and not keep_flags <= {'keep_sssr'}:
+                continue  # the argument "rings unchanged" covers the ring caches only; components list every atom
         return reason or 'see DESIGN.md 3.B'
     return None
 
@@ -152,7 +154,7 @@ def run_protocol(ck, repo, rule='B3', only_entries=None, only_dims=None, contain
                   'callee inlining, witness collections and protocol flags; exemptions are a frozen table')
     P = Protocol(repo, container)
     P.is8_free = dict(IS8_FREE)
-    P.keep_exempt = lambda entry_q, o: exempt(entry_q, o, repo)
+    P.keep_exempt = lambda entry_q, o: exempt(entry_q, o, repo, getattr(P, 'active_keep_flags', None))
     cls = P.container
     per_entry = {}
     own = {}
@@ -187,7 +189,7 @@ def run_protocol(ck, repo, rule='B3', only_entries=None, only_dims=None, contain
                 continue
             if (dim, cat, origin) in own_reports and own_reports[(dim, cat, origin)] is not f:
                 continue  # inherited from an inner public method, reported there
-            why = exempt(f.qualname, o, repo)
+            why = exempt(f.qualname, o, repo, getattr(P, 'keep_flags_of', {}).get((dim, cat, origin)) if dim == 'KEEP' else None)
             if why is not None:
                 ck.ok(rule + '-exempt', f'{f.qualname}|{dim}:{cat}|{origin[0].split(":")[1]}|{origin[2]}', why, nontrivial=False)
                 continue
